@@ -154,6 +154,9 @@ func (g *Gen) Run() {
 		if !g.emit(&Step{Kind: KBegin, Time: FmtTime(t)}) {
 			return
 		}
+		if !g.icaEvents() {
+			return
+		}
 		n := 0
 		if p.MaxPerBlk > 0 {
 			n = g.R.Intn(p.MaxPerBlk + 1)
@@ -454,7 +457,16 @@ func NewGen(property string, tier string, vseed, runIdx uint64, ck Checker) (*Ge
 	for _, a := range g.Actors {
 		g.Trace.Actors = append(g.Trace.Actors, a.Addr)
 	}
-	w, err := NewWorld(property, gen, ChainOpts{Hasher: p.Hasher}, ck)
+	opts := ChainOpts{Hasher: p.Hasher}
+	if property == "C20" {
+		cfg := ICAWorldCfg{}
+		for i := 0; i < r.Range(1, 3); i++ {
+			cfg.Connections = append(cfg.Connections, fmt.Sprintf("connection-%d", i))
+		}
+		g.Trace.ICA = &cfg
+		opts.ICA = NewICAWorld(cfg)
+	}
+	w, err := NewWorld(property, gen, opts, ck)
 	if err != nil {
 		return nil, err
 	}
